@@ -168,6 +168,23 @@ def subject_hosts(i):
     ]
 
 
+def loopback_hosts():
+    lo4 = ipaddress.ip_address("127.0.0.1").packed
+    return [
+        ("name", "a", "lo4.example", lo4, False, {"lo4.example": {"a": ["127.0.0.1"], "aaaa": []}}),
+        ("name", "aaaa", "lo6.example", ipaddress.ip_address("::1").packed, False, {"lo6.example": {"a": [], "aaaa": ["::1"]}}),
+        ("v4-literal", "dotted", "127.0.0.1", lo4, False, {}),
+        ("v4-literal", "inside", "127.9.9.9", ipaddress.ip_address("127.9.9.9").packed, False, {}),
+        ("v6-literal", "short", "::1", ipaddress.ip_address("::1").packed, False, {}),
+        ("v6-literal", "long", "0:0:0:0:0:0:0:1", ipaddress.ip_address("::1").packed, False, {}),
+        ("v4-mapped", "dotted", "::ffff:127.0.0.1", bytes(10) + b"\xff\xff" + lo4, False, {}),
+    ]
+
+
+def hosts_of(subj):
+    return loopback_hosts() if subj == "lo" else subject_hosts(subj)
+
+
 def covert_of(host, port="443"):
     return ("[%s]:%s" % (host, port)) if ":" in host else "%s:%s" % (host, port)
 
@@ -213,10 +230,10 @@ def phantom_nets(i):
 
 
 # ------------------------------------------------------------------ configurations
-def cfg(block=None, allow=None, phantom=None, domains=None, why="", keys=None):
+def cfg(block=None, allow=None, phantom=None, domains=None, why="", keys=None, public=None):
     """lists: None = key absent; entries of block/allow/phantom: CIDR text or ("bad", text);
-    domains: ("pat", (bol, ast, eol)) or ("bad", text)"""
-    return {"kind": "lists", "block": block, "allow": allow, "phantom": phantom, "domains": domains, "why": why, "keys": keys or {}}
+    domains: ("pat", (bol, ast, eol)) or ("bad", text); public: covert_blocklist_public_addrs (None = absent)"""
+    return {"kind": "lists", "block": block, "allow": allow, "phantom": phantom, "domains": domains, "why": why, "keys": keys or {}, "public": public}
 
 
 def cfg_loads(c):
@@ -257,6 +274,8 @@ def cfg_toml(c, rng):
         out.append("%s = [%s]" % (key, ", ".join(items)))
     for k, v in c["keys"].items():
         out.append("%s = %s" % (k, v))
+    if c.get("public") is not None:
+        out.append("covert_blocklist_public_addrs = %s" % ("true" if c["public"] else "false"))
     rng.shuffle(out)
     return {"kind": "text", "text": "\n".join(out) + "\n"}
 
@@ -270,15 +289,13 @@ def cfg_coq(c):
 
     def pats(l):
         return glist(l or [], lambda e: "PBad" if e[0] == "bad" else "(POk %s)" % pat_coq(e[1]))
-    return "(ELists (mkLists %s %s %s %s))" % (nets(c["block"]), nets(c["allow"]), nets(c["phantom"]), pats(c["domains"]))
+    return "(ELists (mkLists %s %s %s %s %s))" % (nets(c["block"]), nets(c["allow"]), nets(c["phantom"]), pats(c["domains"]), gbool(bool(c.get("public"))))
 
 
 def random_keys(rng):
     ks = {}
     if rng.random() < 0.3:
         ks["ingest_worker_count"] = str(rng.choice([0, 1, 20, 100]))
-    if rng.random() < 0.3:
-        ks["covert_blocklist_public_addrs"] = "false"
     if rng.random() < 0.2:
         ks["log_level"] = '"error"'
     if rng.random() < 0.2:
@@ -287,9 +304,21 @@ def random_keys(rng):
 
 
 # ------------------------------------------------------------------ oracle: does an entry forbid it?
-def forbidding(c, host_text, addr):
+def iface_covers(ipb, maskb, addr):
+    """an interface subnet as net.Interfaces reports it (address, mask) against an address"""
+    if len(ipb) == 16 and ipb[:12] == bytes(10) + b"\xff\xff":
+        ipb, maskb = ipb[12:], (maskb[12:] if len(maskb) == 16 else maskb)
+    a = norm_addr(addr)
+    if len(ipb) != len(a.packed) or len(maskb) != len(ipb):
+        return False
+    m = int.from_bytes(maskb, "big")
+    return (int.from_bytes(ipb, "big") & m) == (int(a) & m)
+
+
+def forbidding(c, host_text, addr, ifaces=()):
     """the entries of configuration c that forbid a covert with this host text / address:
-    list of (entry kind, entry text)"""
+    list of (entry kind, entry text); ifaces: the machine's interface subnets (implicit blocklist entries
+    when covert_blocklist_public_addrs is on)"""
     out = []
     for e in (c["domains"] or []):
         if pyre.search(pat_py(e[1]), host_text):
@@ -302,6 +331,10 @@ def forbidding(c, host_text, addr):
         for n in (c["block"] or []):
             if net_covers(n, addr):
                 out.append(("blocklist-subnet", n))
+        if c.get("public"):
+            for ipb, maskb in ifaces:
+                if iface_covers(ipb, maskb, addr):
+                    out.append(("public-addrs", "interface %s/%d" % (norm_addr(ipb), bin(int.from_bytes(maskb[-len(norm_addr(ipb).packed):], "big")).count("1"))))
     return out
 
 
@@ -336,6 +369,17 @@ def structured_cases(rng, quick):
             for ek, c in confs:
                 c["keys"] = random_keys(rng)
                 cases.append({"steps": [c], "focus": (i, hk, sp), "ek": ek, "tag": "enforce/structured"})
+    # covert_blocklist_public_addrs: the interface subnets as implicit blocklist entries, against every spelling of a loopback address
+    for hk, sp, text, addr, zone, script in loopback_hosts():
+        own = "127.0.0.0/8" if norm_addr(addr).version == 4 else "::1/128"
+        confs = [("public-addrs", cfg(public=True, why="interface subnets")),
+                 ("public-addrs", cfg(public=True, block=["203.0.113.0/24"], phantom=[], why="interface subnets behind a written blocklist")),
+                 ("public-addrs-allowlisted", cfg(public=True, allow=[own], why="the allowlist switches the blocklist off")),
+                 ("public-addrs-off", cfg(public=False, block=["203.0.113.0/24"], why="flag off")),
+                 ("public-addrs-off", cfg(block=[], why="flag absent")),
+                 ("pattern-only", cfg(public=False, domains=[("pat", patterns_for(text, rng)[0][1])], why="pattern on a loopback spelling"))]
+        for ek, c in confs:
+            cases.append({"steps": [c], "focus": ("lo", hk, sp), "ek": ek, "tag": "enforce/structured"})
     return cases
 
 
@@ -356,7 +400,7 @@ def random_cfg(rng, subj):
         for _ in range(rng.randrange(0, 4)):
             doms.append(("pat", rng.choice(patterns_for(rng.choice(texts), rng))[1]))
     ph = rng.choice([None, [], [rng.choice(phantom_nets(rng.randrange(NSUBJ))) for _ in range(rng.randrange(1, 3))]])
-    return cfg(block=nets(), allow=nets(0.6), phantom=ph, domains=doms, why="random", keys=random_keys(rng))
+    return cfg(block=nets(), allow=nets(0.6), phantom=ph, domains=doms, why="random", keys=random_keys(rng), public=rng.choice([None, None, False, True]))
 
 
 def spoil(c, rng):
@@ -399,10 +443,10 @@ def reload_cases(rng, quick, structured):
 def queries_for(case, rng):
     """all host kinds of the focus subject and of one other subject, plus the unusable strings"""
     i = case["focus"][0]
-    j = (i + 1 + rng.randrange(NSUBJ - 1)) % NSUBJ
+    j = rng.randrange(NSUBJ) if i == "lo" else rng.choice(["lo", (i + 1 + rng.randrange(NSUBJ - 1)) % NSUBJ])
     qs, script = [], {}
     for subj in (i, j):
-        for hk, sp, text, addr, zone, sc in subject_hosts(subj):
+        for hk, sp, text, addr, zone, sc in hosts_of(subj):
             script.update(sc)
             qs.append({"s": covert_of(text, rng.choice(["443", "80", "65535", "0", "08080"])), "hk": hk, "sp": sp, "host": text, "addr": addr, "zone": zone,
                        "usable": True, "subj": subj})
@@ -410,7 +454,7 @@ def queries_for(case, rng):
         qs.append({"s": s, "hk": "unusable", "sp": cls, "host": None, "addr": None, "zone": False, "usable": False, "subj": -1})
     ph = []
     for subj in (i, j):
-        for fam, b in phantom_addrs(subj):
+        for fam, b in phantom_addrs(0 if subj == "lo" else subj):
             ph.append({"fam": fam, "ip": b, "subj": subj})
     return qs, script, ph
 
@@ -446,6 +490,7 @@ def run_enforce(ctx, files):
         base_case = {"enforce_steps": steps_json, "focus": list(c["focus"]), "toml": [s.get("text", "<unreadable>") for s in j["steps"]]}
         ctx.count(("enforce", repr(steps_json), c["focus"]), nontrivial=bool(r["steps"]), kind=c["tag"])
         in_force, sterms = None, []
+        ifaces = [(bytes.fromhex(a), bytes.fromhex(b)) for a, b in (r.get("ifaces") or [])]
         for k, (cf, st) in enumerate(zip(c["steps"], r["steps"])):
             case = dict(base_case, step=k)
             where = "start-up" if k == 0 else "reload %d" % k
@@ -485,7 +530,7 @@ def run_enforce(ctx, files):
                         ctx.broken("generator", "covert %r: the Go library sees host/address %r/%r/%s, the generator %r/%r" %
                                    (q["s"], o.get("host"), o.get("res_ip"), o.get("res_zone"), q["host"], q["addr"].hex()), dict(case, covert=q["s"]))
                         continue
-                    fb = forbidding(in_force, q["host"], q["addr"])
+                    fb = forbidding(in_force, q["host"], q["addr"], ifaces)
                     kinds = sorted({e for e, _ in fb})
                     if q["subj"] == c["focus"][0] and c["focus"][1] == q["hk"] and c["focus"][2] == q["sp"] and k == 0:
                         kk = "enforce/%s/%s/%s" % (c["ek"], q["hk"], "admitted" if o["admit"] else "refused")
@@ -533,7 +578,7 @@ def run_enforce(ctx, files):
                 phterms.append("(%s, %s)" % (gb(p["ip"]), gbool(got)))
             sterms.append("(mkS %s %s %s %s)" % (cfg_coq(cf), gbool(accepted), glist(qterms, lambda t: "(%s)" % t), glist(phterms)))
         if sterms:
-            terms.append(glist(sterms))
+            terms.append("(%s, %s)" % (glist(ifaces, lambda n: "(%s, %s)" % (gb(n[0]), gb(n[1]))), glist(sterms)))
             keep.append((c, r, base_case))
     ctx.cov["enforce_lane"] = dict(ncheck, cases=len(cases), compared=len(terms))
     for c, r, bc in keep[:1]:
@@ -554,6 +599,14 @@ def run_enforce(ctx, files):
             req.append("enforce/%s/%s/admitted" % (ek, hk))
     for fam in ("v4", "v6", "mapped"):
         req += ["enforce/phantom/%s/refused" % fam, "enforce/phantom/%s/admitted" % fam]
+    # the interface subnets are the machine's: the loopback classes are required where the machine has them
+    all_ifaces = {(bytes.fromhex(a), bytes.fromhex(b)) for r in res for a, b in (r.get("ifaces") or [])}
+    ctx.cov["enforce_lane"]["interfaces"] = sorted("%s/%d" % (norm_addr(a), bin(int.from_bytes(b[-len(norm_addr(a).packed):], "big")).count("1")) for a, b in all_ifaces)
+    lo4 = any(iface_covers(a, b, ipaddress.ip_address("127.0.0.1").packed) for a, b in all_ifaces)
+    lo6 = any(iface_covers(a, b, ipaddress.ip_address("::1").packed) for a, b in all_ifaces)
+    for hk, need in (("v4-literal", lo4), ("v4-mapped", lo4), ("name", lo4 or lo6), ("v6-literal", lo6)):
+        if need:
+            req += ["enforce/public-addrs/%s/refused" % hk, "enforce/public-addrs-allowlisted/%s/admitted" % hk, "enforce/public-addrs-off/%s/admitted" % hk]
     ctx.require_kinds(req)
 
 
@@ -570,7 +623,7 @@ def to_json(steps):
         if s["kind"] != "lists":
             out.append({"kind": s["kind"], "why": s.get("why", "")})
         else:
-            out.append({"kind": "lists", "why": s["why"], "keys": s["keys"], **{l: (None if s[l] is None else [ent(e) for e in s[l]]) for l in ("block", "allow", "phantom", "domains")}})
+            out.append({"kind": "lists", "why": s["why"], "keys": s["keys"], "public": s.get("public"), **{l: (None if s[l] is None else [ent(e) for e in s[l]]) for l in ("block", "allow", "phantom", "domains")}})
     return out
 
 
